@@ -43,6 +43,10 @@ structure Sem (E V T : Type) where
   anyMarked : String → T → Bool      -- is some child of the list's tree `true` or marking the key field
   -- the binding map
   reads : E → String → Bool          -- does the expression read this top-level data field
+  -- `<template is data>`
+  keyStr : V → String                -- `String(v)`: the name a template is looked up by
+  mkObj : List (String × V) → V      -- the data object of a sub-template
+  mkTree : T → List (String × T) → T -- its update-path tree (from the enclosing tree and the trees of the field expressions)
 
 mutual
 inductive Tpl (E : Type) where
@@ -57,6 +61,9 @@ inductive Tpl (E : Type) where
   | loop (list : E) (body : Tpls E)
   /-- `wx:for` with `wx:key` -/
   | loopK (list : E) (key : String) (body : Tpls E)
+  /-- `<template is="…" data="{{ f: e, … }}"/>`: `cases` are the templates the name can select (first match), already resolved;
+  the selected one is instantiated with the data object built from the fields and sees no scope variable -/
+  | tref (is : E) (fields : List (String × E)) (cases : TCases E)
 inductive Tpls (E : Type) where
   | nil
   | cons (t : Tpl E) (r : Tpls E)
@@ -64,6 +71,9 @@ inductive Tpls (E : Type) where
 inductive Branches (E : Type) where
   | last (hasElse : Bool) (els : Tpls E)
   | cons (c : E) (body : Tpls E) (r : Branches E)
+inductive TCases (E : Type) where
+  | nil
+  | cons (name : String) (body : Tpls E) (r : TCases E)
 end
 
 mutual
@@ -75,6 +85,8 @@ inductive Node (V : Type) where
   | forn (born : Nat) (items : Items V)
   /-- a keyed list remembers the keys of its items (as computed, before they are made unique) -/
   | fornK (born : Nat) (raw : List String) (items : Items V)
+  /-- the node of a `<template is>`: it remembers the value of `is` -/
+  | tnode (born : Nat) (key : V) (children : Nodes V)
 inductive Nodes (V : Type) where
   | nil
   | cons (n : Node V) (r : Nodes V)
@@ -93,6 +105,9 @@ def firstTrue (s : Sem E V T) (D : V) (sc : List V) : Branches E → Nat → Nat
   | .cons c _ r, i => if s.truthy (s.eval c D sc) then i else firstTrue s D sc r (i + 1)
 
 def branchKey (s : Sem E V T) (D : V) (sc : List V) (bs : Branches E) : Nat := firstTrue s D sc bs 1
+
+/-- the template name selected by the value of `is` (none when the value is falsy) -/
+def selOf (s : Sem E V T) (k : V) : Option String := if s.truthy k then some (s.keyStr k) else none
 
 def evalAttrs (s : Sem E V T) (D : V) (sc : List V) (attrs : List (String × E)) : List (String × V) :=
   attrs.map fun a => (a.1, s.eval a.2 D sc)
@@ -114,6 +129,9 @@ def create (s : Sem E V T) (now : Nat) (D : V) (sc : List V) : Tpl E → Node V
   | .loopK l key body =>
     let its := s.items (s.eval l D sc)
     .fornK now (its.map fun p => s.rawKey key p.1) (mkItems now (fun a x => createL s now D (sc ++ [a, x]) body) its)
+  | .tref is fields cases =>
+    let k := s.eval is D sc
+    .tnode now k (createT s now (s.mkObj (evalAttrs s D sc fields)) cases (selOf s k))
 def createL (s : Sem E V T) (now : Nat) (D : V) (sc : List V) : Tpls E → Nodes V
   | .nil => .nil
   | .cons t r => .cons (create s now D sc t) (createL s now D sc r)
@@ -121,6 +139,10 @@ def createL (s : Sem E V T) (now : Nat) (D : V) (sc : List V) : Tpls E → Nodes
 def createBr (s : Sem E V T) (now : Nat) (D : V) (sc : List V) : Branches E → Nat → Nat → Nodes V
   | .last he els, k, _ => if he && k == 0 then createL s now D sc els else .nil
   | .cons _ body r, k, i => if k == i then createL s now D sc body else createBr s now D sc r k (i + 1)
+/-- the content of the selected template under its own data -/
+def createT (s : Sem E V T) (now : Nat) (D : V) : TCases E → Option String → Nodes V
+  | .nil, _ => .nil
+  | .cons name body r, sel => if sel = some name then createL s now D [] body else createT s now D r sel
 end
 
 def updAttrs (s : Sem E V T) (D : V) (sc : List V) (U : T) (su : List T) : List (String × E) → List (String × V) → List (String × V)
@@ -198,6 +220,12 @@ def update (s : Sem E V T) (now : Nat) (D : V) (sc : List V) (U : T) (su : List 
     if s.isNone L then .fornK b nraw (zipItems s now (fun _ => s.none) upd mk its oitems)
     else .fornK b nraw (keyedItems s now (GE.Rlm.uniq oraw) oitems
       (itemTree s key L (s.anyMarked key L) (GE.Rlm.renamed oraw) (GE.Rlm.renamed nraw)) upd mk its (GE.Rlm.uniq nraw))
+  | .tref is fields cases, .tnode b k och =>
+    let k' := s.eval is D sc
+    let D' := s.mkObj (evalAttrs s D sc fields)
+    if s.same k' k then
+      .tnode b k (updateT s now D' (s.mkTree U (fields.map fun a => (a.1, s.treeOf a.2 U su))) cases (selOf s k') och)
+    else .tnode now k' (createT s now D' cases (selOf s k'))
   -- (a node that was not made from this template: cannot happen, see `renders`)
   | t, _ => create s now D sc t
 def updateL (s : Sem E V T) (now : Nat) (D : V) (sc : List V) (U : T) (su : List T) : Tpls E → Nodes V → Nodes V
@@ -209,6 +237,9 @@ def updateBr (s : Sem E V T) (now : Nat) (D : V) (sc : List V) (U : T) (su : Lis
   | .last he els, k, _, och => if he && k == 0 then updateL s now D sc U su els och else .nil
   | .cons _ body r, k, i, och =>
     if k == i then updateL s now D sc U su body och else updateBr s now D sc U su r k (i + 1) och
+def updateT (s : Sem E V T) (now : Nat) (D : V) (U : T) : TCases E → Option String → Nodes V → Nodes V
+  | .nil, _, _ => .nil
+  | .cons name body r, sel, och => if sel = some name then updateL s now D [] U [] body och else updateT s now D U r sel och
 end
 
 /-! ### the binding-map fast path (`ProcGenWrapper.bindingMapUpdate`): the updaters of one top-level data field
@@ -241,6 +272,7 @@ def occurs (s : Sem E V T) (f : String) : Tpl E → Bool
   | .cond bs => occursBr s f bs
   | .loop l body => s.reads l f || occursL s f body
   | .loopK l _ body => s.reads l f || occursL s f body
+  | .tref is fields _ => s.reads is f || fields.any (fun a => s.reads a.2 f)      -- (the sub-template sees its own data object only)
 def occursL (s : Sem E V T) (f : String) : Tpls E → Bool
   | .nil => false
   | .cons t r => occurs s f t || occursL s f r
@@ -258,6 +290,7 @@ def dynOccurs (s : Sem E V T) (f : String) : Tpl E → Bool
   | .cond bs => occursBr s f bs
   | .loop l body => s.reads l f || occursL s f body
   | .loopK l _ body => s.reads l f || occursL s f body
+  | .tref is fields _ => s.reads is f || fields.any (fun a => s.reads a.2 f)
 def dynOccursL (s : Sem E V T) (f : String) : Tpls E → Bool
   | .nil => false
   | .cons t r => dynOccurs s f t || dynOccursL s f r
@@ -272,6 +305,7 @@ def hasIncl : Tpl E → Bool
   | .cond bs => hasInclBr bs
   | .loop _ body => hasInclL body
   | .loopK _ _ body => hasInclL body
+  | .tref _ _ _ => false       -- (an include inside a sub-template switches off that template's own map, which nobody uses)
 def hasInclL : Tpls E → Bool
   | .nil => false
   | .cons t r => hasIncl t || hasInclL r
@@ -301,6 +335,8 @@ def renders (s : Sem E V T) (D : V) (sc : List V) : Tpl E → Node V → Prop
   | .loopK l key body, .fornK _ raw items =>
     raw = (s.items (s.eval l D sc)).map (fun p => s.rawKey key p.1) ∧
     rendersItems (fun a x nch => rendersL s D (sc ++ [a, x]) body nch) (s.items (s.eval l D sc)) items
+  | .tref is fields cases, .tnode _ k nch =>
+    k = s.eval is D sc ∧ rendersT s (s.mkObj (evalAttrs s D sc fields)) cases (selOf s k) nch
   | _, _ => False
 def rendersL (s : Sem E V T) (D : V) (sc : List V) : Tpls E → Nodes V → Prop
   | .nil, .nil => True
@@ -309,6 +345,9 @@ def rendersL (s : Sem E V T) (D : V) (sc : List V) : Tpls E → Nodes V → Prop
 def rendersBr (s : Sem E V T) (D : V) (sc : List V) : Branches E → Nat → Nat → Nodes V → Prop
   | .last he els, k, _, nch => if he && k == 0 then rendersL s D sc els nch else nch = .nil
   | .cons _ body r, k, i, nch => if k == i then rendersL s D sc body nch else rendersBr s D sc r k (i + 1) nch
+def rendersT (s : Sem E V T) (D : V) : TCases E → Option String → Nodes V → Prop
+  | .nil, _, nch => nch = .nil
+  | .cons name body r, sel, nch => if sel = some name then rendersL s D [] body nch else rendersT s D r sel nch
 end
 
 /-! ### forgetting when nodes were born -/
@@ -321,6 +360,7 @@ def Node.shape : Node V → Node V
   | .ifn _ k ch => .ifn 0 k ch.shape
   | .forn _ its => .forn 0 its.shape
   | .fornK _ raw its => .fornK 0 raw its.shape
+  | .tnode _ k ch => .tnode 0 k ch.shape
 def Nodes.shape : Nodes V → Nodes V
   | .nil => .nil
   | .cons n r => .cons n.shape r.shape
